@@ -217,25 +217,33 @@ def kIwAtOmegas (n : Nat) : List Nat := (iwLoop n).all
 def kTetraFreqs (ngp nb : Nat) : List Nat := for1 ngp fun i => (tetraFreqLoop ngp nb i).all
 def kDos (nir nb nf nc : Nat) : List Nat := (dosLoop nir nb nf nc).all
 
-/-! ## the pragma inventory this model was written against (`tools/pragmas.py`, field `key`) -/
+/-! ## the pragma inventory this model was written against (`tools/pragmas.py`, `canonical`, field `key`)
+
+Canonical form: file | external-linkage functions that reach the loop | directive | loop bound and `if` clause with
+the enclosing function's parameters named by position (`P<k>`, loop variable `V`, macros resolved) | other clauses |
+non-private function-scope locals written inside the parallel region (a race: must be empty) | shared objects written
+inside the region, followed through calls into helpers: pointer parameters by position, heap temporaries by element
+type and element count.  Names of static functions and of locals, `private(...)` lists versus declarations inside the
+loop body, statement order and index expressions are *not* part of it (index expressions are tied to the model by the
+sentinel/guard footprint runs). -/
 def inventory : List String := [
-  "c/_phonopy.cpp|py_thm_integration_weight_at_omegas|parallel for|i|i < num_omegas|private()|if()|de4969e31634|",
-  "c/derivative_dynmat.c|ddm_get_derivative_dynmat_at_q|parallel for|ij|ij < num_patom * num_patom|private(i,j)|if()|6d085cc46c9a|get_derivative_dynmat_at_q:be9795637e64",
-  "c/dynmat.c|dym_dynamical_matrices_with_dd_openmp_over_qpoints|parallel for|i|i < n_qpoints|private()|if()|3433fbe61bfa|dym_get_charge_sum:78995a4ed571,dym_get_dynamical_matrix_at_q:73a63b80d131,get_dielectric_part:8c3fc69b4221,get_dynmat_ij:0979ddb24f8a,get_dynmat_want:50fff13f1b54,make_Hermitian:204e17a1ab23",
-  "c/dynmat.c|dym_dynamical_matrices_with_dd_openmp_over_qpoints|parallel for|i|i < n_qpoints|private()|if()|cc9b77a80448|add_dynmat_dd_at_q:5fabf773c910,dym_get_dynamical_matrix_at_q:73a63b80d131,dym_get_recip_dipole_dipole:c422c65370a2,get_dd:8bfd27ba1895,get_dielectric_part:8c3fc69b4221,get_dynmat_ij:0979ddb24f8a,make_Hermitian:204e17a1ab23",
-  "c/dynmat.c|dym_get_dynamical_matrix_at_q|parallel for|ij|ij < num_patom * num_patom|private()|if()|0baf00b1400a|get_dynmat_ij:0979ddb24f8a",
-  "c/dynmat.c|dym_transform_dynmat_to_fc|parallel for|ij|ij < num_patom * num_satom|private()|if()|21e45a27b1d9|transform_dynmat_to_fc_ij:7a4cc1876cfe",
-  "c/dynmat.c|get_dd|parallel for|g|g < num_G|private(dielectric_part,i,j,norm,q_K)|if(use_openmp)|d3f3d40b3b9a|",
-  "c/dynmat.c|multiply_borns|parallel for|ij|ij < num_patom * num_patom|private()|if()|0663b495dc30|multiply_borns_at_ij:fa0d992b1b45",
-  "c/phonopy.c|phpy_get_tetrahedra_frequenies|parallel for|j|j < num_band * 96|private(address_double,g_addr,gp,k)|if()|0a6eb5264c0b|",
-  "c/phonopy.c|phpy_tetrahedron_method_dos|parallel for|i|i < num_ir_gp|private(address_double,g_addr,ir_gps,iw,j,k,l,m,q,r,tetrahedra)|if()|bfa9e8ecb7db|",
-  "c/phonopy.c|phpy_get_thermal_properties|parallel for|i|i < num_qpoints|private(f,j,k)|if()|2b412cfcf9a8|"
+  "c/_phonopy.cpp|py_thm_integration_weight_at_omegas|parallel for|V < num_omegas|if()||shared-locals[]|writes[param:0]",
+  "c/derivative_dynmat.c|ddm_get_derivative_dynmat_at_q,phpy_get_derivative_dynmat_at_q,py_get_derivative_dynmat|parallel for|V < P1 * P1|if()||shared-locals[]|writes[param:0]",
+  "c/dynmat.c|dym_dynamical_matrices_with_dd_openmp_over_qpoints,dym_get_dynamical_matrix_at_q,phpy_dynamical_matrices_with_dd_openmp_over_qpoints,py_get_dynamical_matrices_with_dd_openmp_over_qpoints|parallel for|V < P1 * P1|if()||shared-locals[]|writes[param:0]",
+  "c/dynmat.c|dym_dynamical_matrices_with_dd_openmp_over_qpoints,dym_get_recip_dipole_dipole,dym_get_recip_dipole_dipole_q0,phpy_dynamical_matrices_with_dd_openmp_over_qpoints,phpy_get_recip_dipole_dipole,phpy_get_recip_dipole_dipole_q0,py_get_dynamical_matrices_with_dd_openmp_over_qpoints,py_get_recip_dipole_dipole,py_get_recip_dipole_dipole_q0|parallel for|V < P2 * P2|if()||shared-locals[]|writes[param:0]",
+  "c/dynmat.c|dym_dynamical_matrices_with_dd_openmp_over_qpoints,dym_get_recip_dipole_dipole,dym_get_recip_dipole_dipole_q0,phpy_dynamical_matrices_with_dd_openmp_over_qpoints,phpy_get_recip_dipole_dipole,phpy_get_recip_dipole_dipole_q0,py_get_dynamical_matrices_with_dd_openmp_over_qpoints,py_get_recip_dipole_dipole,py_get_recip_dipole_dipole_q0|parallel for|V < P2|if(P10)||shared-locals[]|writes[temp:double[3][3]:P2]",
+  "c/dynmat.c|dym_dynamical_matrices_with_dd_openmp_over_qpoints,phpy_dynamical_matrices_with_dd_openmp_over_qpoints,py_get_dynamical_matrices_with_dd_openmp_over_qpoints|parallel for|V < P2|if()||shared-locals[]|writes[param:0]",
+  "c/dynmat.c|dym_dynamical_matrices_with_dd_openmp_over_qpoints,phpy_dynamical_matrices_with_dd_openmp_over_qpoints,py_get_dynamical_matrices_with_dd_openmp_over_qpoints|parallel for|V < P2|if()||shared-locals[]|writes[param:0]",
+  "c/dynmat.c|dym_transform_dynmat_to_fc,phpy_transform_dynmat_to_fc,py_transform_dynmat_to_fc|parallel for|V < P8 * P9|if()||shared-locals[]|writes[param:0]",
+  "c/phonopy.c|phpy_get_tetrahedra_frequenies,py_get_tetrahedra_frequenies|parallel for|V < P7 * 96|if()||shared-locals[]|writes[param:0]",
+  "c/phonopy.c|phpy_get_thermal_properties,py_get_thermal_properties|parallel for|V < P5|if()||shared-locals[]|writes[temp:double:P5 * P4 * 3]",
+  "c/phonopy.c|phpy_tetrahedron_method_dos,py_tetrahedron_method_dos|parallel for|V < P9|if()||shared-locals[]|writes[param:0]"
 ]
 
 /-! ## heap temporaries of the kernels
 
-Every `malloc` of `/repo/c` (`mallocInventory`, recomputed by `tools/pragmas.py` on every run: function,
-variable, element type, element-count expression) with the index set the kernel uses on it as a function
+Every `malloc`/`calloc` of `/repo/c` (`mallocInventory`, recomputed by `tools/pragmas.py` on every run: file,
+external-linkage functions reaching it, element type, element count with parameters by position) with the index set the kernel uses on it as a function
 of the shape parameters and index tables.  `Temp.InBounds`: every access index is below the allocated
 element count. -/
 
@@ -316,26 +324,26 @@ def tIrGridPoints (nir ngp : Nat) (gmt : Nat → Nat) : Temp where
   accesses := for1 ngp fun i => if gmt i = i then [((List.range i).filter fun k => gmt k = k).length] else []
 
 def mallocInventory : List String := [
-  "c/derivative_dynmat.c|ddm_get_derivative_dynmat_at_q|ddnac|double|num_patom * num_patom * 27",
-  "c/derivative_dynmat.c|ddm_get_derivative_dynmat_at_q|dnac|double|num_patom * num_patom * 9",
-  "c/dynmat.c|dym_dynamical_matrices_with_dd_openmp_over_qpoints|q_dir_cart|double|3",
-  "c/dynmat.c|get_dynmat_want|charge_sum|double[3][3]|num_patom * num_patom",
-  "c/dynmat.c|add_dynmat_dd_at_q|dd|double[2]|num_patom * num_patom * 9",
-  "c/dynmat.c|dym_get_recip_dipole_dipole|dd_tmp|double[2]|num_patom * num_patom * 9",
-  "c/dynmat.c|dym_get_recip_dipole_dipole_q0|dd_tmp1|double[2]|num_patom * num_patom * 9",
-  "c/dynmat.c|dym_get_recip_dipole_dipole_q0|dd_tmp2|double[2]|num_patom * num_patom * 9",
-  "c/dynmat.c|dym_get_charge_sum|q_born|double[3]|num_patom",
-  "c/dynmat.c|get_dd|KK|double[3][3]|num_G",
-  "c/phonopy.c|phpy_tetrahedron_method_dos|gp2ir|int64_t|num_gp",
-  "c/phonopy.c|phpy_tetrahedron_method_dos|ir_grid_points|int64_t|num_ir_gp",
-  "c/phonopy.c|phpy_tetrahedron_method_dos|weights|int64_t|num_ir_gp",
-  "c/phonopy.c|phpy_get_thermal_properties|tp|double|num_qpoints * num_temp * 3",
-  "c/phonopy.c|phpy_set_smallest_vectors_sparse|length|double|num_lattice_points",
-  "c/phonopy.c|phpy_set_smallest_vectors_sparse|vec|double[3]|num_lattice_points",
-  "c/phonopy.c|phpy_set_smallest_vectors_dense|length|double|num_lattice_points",
-  "c/phonopy.c|phpy_set_smallest_vectors_dense|vec|double[3]|num_lattice_points",
-  "c/phonopy.c|phpy_set_index_permutation_symmetry_compact_fc|done|char|n_satom * n_patom",
-  "c/phonopy.c|distribute_fc2|atom_list_reverse|int|num_pos"
+  "c/derivative_dynmat.c|ddm_get_derivative_dynmat_at_q,phpy_get_derivative_dynmat_at_q,py_get_derivative_dynmat|double|P1 * P1 * 27",
+  "c/derivative_dynmat.c|ddm_get_derivative_dynmat_at_q,phpy_get_derivative_dynmat_at_q,py_get_derivative_dynmat|double|P1 * P1 * 9",
+  "c/dynmat.c|dym_dynamical_matrices_with_dd_openmp_over_qpoints,dym_get_charge_sum,phpy_dynamical_matrices_with_dd_openmp_over_qpoints,phpy_get_charge_sum,py_get_dynamical_matrices_with_dd_openmp_over_qpoints|double[3]|P1",
+  "c/dynmat.c|dym_dynamical_matrices_with_dd_openmp_over_qpoints,dym_get_recip_dipole_dipole,dym_get_recip_dipole_dipole_q0,phpy_dynamical_matrices_with_dd_openmp_over_qpoints,phpy_get_recip_dipole_dipole,phpy_get_recip_dipole_dipole_q0,py_get_dynamical_matrices_with_dd_openmp_over_qpoints,py_get_recip_dipole_dipole,py_get_recip_dipole_dipole_q0|double[3][3]|P2",
+  "c/dynmat.c|dym_dynamical_matrices_with_dd_openmp_over_qpoints,dym_get_recip_dipole_dipole,phpy_dynamical_matrices_with_dd_openmp_over_qpoints,phpy_get_recip_dipole_dipole,py_get_dynamical_matrices_with_dd_openmp_over_qpoints,py_get_recip_dipole_dipole|double[2]|P4 * P4 * 9",
+  "c/dynmat.c|dym_dynamical_matrices_with_dd_openmp_over_qpoints,phpy_dynamical_matrices_with_dd_openmp_over_qpoints,py_get_dynamical_matrices_with_dd_openmp_over_qpoints|double[2]|P4 * P4 * 9",
+  "c/dynmat.c|dym_dynamical_matrices_with_dd_openmp_over_qpoints,phpy_dynamical_matrices_with_dd_openmp_over_qpoints,py_get_dynamical_matrices_with_dd_openmp_over_qpoints|double[3][3]|P5 * P5",
+  "c/dynmat.c|dym_dynamical_matrices_with_dd_openmp_over_qpoints,phpy_dynamical_matrices_with_dd_openmp_over_qpoints,py_get_dynamical_matrices_with_dd_openmp_over_qpoints|double|3",
+  "c/dynmat.c|dym_get_recip_dipole_dipole_q0,phpy_get_recip_dipole_dipole_q0,py_get_recip_dipole_dipole_q0|double[2]|P3 * P3 * 9",
+  "c/dynmat.c|dym_get_recip_dipole_dipole_q0,phpy_get_recip_dipole_dipole_q0,py_get_recip_dipole_dipole_q0|double[2]|P3 * P3 * 9",
+  "c/phonopy.c|phpy_distribute_fc2,py_distribute_fc2|int|P9",
+  "c/phonopy.c|phpy_get_thermal_properties,py_get_thermal_properties|double|P5 * P4 * 3",
+  "c/phonopy.c|phpy_perm_trans_symmetrize_compact_fc,phpy_set_index_permutation_symmetry_compact_fc,py_perm_trans_symmetrize_compact_fc,py_transpose_compact_fc|char|P5 * P6",
+  "c/phonopy.c|phpy_set_smallest_vectors_dense,py_gsv_set_smallest_vectors_dense|double[3]|P7",
+  "c/phonopy.c|phpy_set_smallest_vectors_dense,py_gsv_set_smallest_vectors_dense|double|P7",
+  "c/phonopy.c|phpy_set_smallest_vectors_sparse,py_gsv_set_smallest_vectors_sparse|double[3]|P7",
+  "c/phonopy.c|phpy_set_smallest_vectors_sparse,py_gsv_set_smallest_vectors_sparse|double|P7",
+  "c/phonopy.c|phpy_tetrahedron_method_dos,py_tetrahedron_method_dos|int64_t|P12",
+  "c/phonopy.c|phpy_tetrahedron_method_dos,py_tetrahedron_method_dos|int64_t|P9",
+  "c/phonopy.c|phpy_tetrahedron_method_dos,py_tetrahedron_method_dos|int64_t|P9"
 ]
 
 end PhononModel.Footprint
